@@ -1,5 +1,6 @@
 (* propagate_dft puts the Fraunhofer sum of every field on the right output samples (C02). *)
 From LV Require Import Model.Propagate Proofs.ArrP Proofs.ExtentP Proofs.FieldP Proofs.DftP.
+From Coq Require Import Permutation.
 
 (* ------------------------------------------------------------------ rationals *)
 Lemma zq_opp a : zq (- a) = (- zq a)%Qc.
@@ -416,5 +417,296 @@ Proof.
   destruct (Hd f Hf) as [E [a Ha]]. rewrite E. cbn [fst snd]. rewrite qfix_0, Ha.
   unfold unitary_scale. replace (zq u - 0)%Qc with (zq u) by ring. replace (zq v - 0)%Qc with (zq v) by ring.
   reflexivity.
+Qed.
+
+(* shape, prop_shape and mask only select: two calls that differ in nothing else agree on every
+   sample (same plane coordinate) that both evaluate *)
+Theorem window_only_selects shift_of (w : wavefront S) dur duc os dxr dxc
+        shape1 pshape1 mask1 Sr1 Sc1 Pr1 Pc1 b1 w1 o1 shape2 pshape2 mask2 Sr2 Sc2 Pr2 Pc2 b2 w2 o2 :
+  wps w = Some (dxr, dxc) ->
+  (forall f, In f (wdata w) -> shift_of f = (0%Qc, 0%Qc) /\ exists a, fd f = D2 a) -> 1 <= os ->
+  match shape1 with None => wshape w | Some s => s end = (Sr1, Sc1) ->
+  match pshape1 with None => (Sr1, Sc1) | Some p => p end = (Pr1, Pc1) ->
+  0 < Sr1 -> 0 < Sc1 -> 0 < Pr1 -> 0 < Pc1 ->
+  (forall m, mask1 = Some m -> mnr m = Sr1 * os /\ mnc m = Sc1 * os) ->
+  mask_bbox mask1 (Sr1 * os) (Sc1 * os) = Ok b1 ->
+  match shape2 with None => wshape w | Some s => s end = (Sr2, Sc2) ->
+  match pshape2 with None => (Sr2, Sc2) | Some p => p end = (Pr2, Pc2) ->
+  0 < Sr2 -> 0 < Sc2 -> 0 < Pr2 -> 0 < Pc2 ->
+  (forall m, mask2 = Some m -> mnr m = Sr2 * os /\ mnc m = Sc2 * os) ->
+  mask_bbox mask2 (Sr2 * os) (Sc2 * os) = Ok b2 ->
+  propagate_dft sq shift_of w dur duc shape1 pshape1 os mask1 = Ok w1 -> wfield w1 = Ok o1 ->
+  propagate_dft sq shift_of w dur duc shape2 pshape2 os mask2 = Ok w2 -> wfield w2 = Ok o2 ->
+  forall i1 j1 i2 j2, 0 <= i1 < Sr1 * os -> 0 <= j1 < Sc1 * os -> 0 <= i2 < Sr2 * os -> 0 <= j2 < Sc2 * os ->
+    i1 - (Sr1 * os) / 2 = i2 - (Sr2 * os) / 2 -> j1 - (Sc1 * os) / 2 = j2 - (Sc2 * os) / 2 ->
+    inE b1 i1 j1 && inE (array_extent (Pr1 * os) (Pc1 * os) 0 0) (i1 - (Sr1 * os) / 2) (j1 - (Sc1 * os) / 2) = true ->
+    inE b2 i2 j2 && inE (array_extent (Pr2 * os) (Pc2 * os) 0 0) (i2 - (Sr2 * os) / 2) (j2 - (Sc2 * os) / 2) = true ->
+    get o1 i1 j1 = get o2 i2 j2.
+Proof.
+  intros Hps Hd Hos Hs1 Hp1 A1 A2 A3 A4 Hm1 Hb1 Hs2 Hp2 B1 B2 B3 B4 Hm2 Hb2 Hw1 Ho1 Hw2 Ho2
+         i1 j1 i2 j2 Hi1 Hj1 Hi2 Hj2 Eu Ev In1 In2.
+  assert (Hpt : wptype w <> PtNone).
+  { intro E. unfold propagate_dft in Hw1. rewrite E in Hw1. discriminate. }
+  destruct (propagate_dft_samples shift_of w dur duc shape1 pshape1 os mask1 dxr dxc Sr1 Sc1 Pr1 Pc1 b1
+              Hpt Hps Hd Hs1 Hp1 A1 A2 A3 A4 Hos Hm1 Hb1) as (w1' & o1' & Hw1' & _ & Ho1' & _ & _ & G1).
+  destruct (propagate_dft_samples shift_of w dur duc shape2 pshape2 os mask2 dxr dxc Sr2 Sc2 Pr2 Pc2 b2
+              Hpt Hps Hd Hs2 Hp2 B1 B2 B3 B4 Hos Hm2 Hb2) as (w2' & o2' & Hw2' & _ & Ho2' & _ & _ & G2).
+  rewrite Hw1 in Hw1'. injection Hw1' as <-. rewrite Ho1 in Ho1'. injection Ho1' as <-.
+  rewrite Hw2 in Hw2'. injection Hw2' as <-. rewrite Ho2 in Ho2'. injection Ho2' as <-.
+  rewrite (G1 i1 j1 Hi1 Hj1), (G2 i2 j2 Hi2 Hj2). cbv zeta. rewrite In1, In2, Eu, Ev. reflexivity.
+Qed.
+
+(* ------------------------------------------------------------------ metadata *)
+Theorem propagate_metadata shift_of (w w' : wavefront S) dur duc shape pshape os mask :
+  propagate_dft sq shift_of w dur duc shape pshape os mask = Ok w' ->
+  wwl w' = wwl w /\
+  wfocal w' = init_focal (wfocal w) /\
+  wps w' = Some ((dur / zq os)%Qc, (duc / zq os)%Qc) /\
+  ((wptype w = PtPupil /\ wptype w' = PtImage) \/ (wptype w = PtImage /\ wptype w' = PtPupil)) /\
+  wshape w' = (let '(Sr, Sc) := match shape with None => wshape w | Some s => s end in (Sr * os, Sc * os)).
+Proof.
+  unfold propagate_dft. destruct (wptype w) eqn:Ept; cbn [propagate_ptype rbind]; [discriminate| |];
+    destruct (match shape with None => wshape w | Some s => s end) as [Sr Sc];
+    destruct (match pshape with None => (Sr, Sc) | Some p => p end) as [Pr Pc];
+    destruct (out_extent (Sr * os) (Sc * os) mask) as [oe|e]; cbn [rbind]; try discriminate;
+    match goal with |- context[prop_fields ?a1 ?a2 ?a3 ?a4 ?a5 ?a6 ?a7] => destruct (prop_fields a1 a2 a3 a4 a5 a6 a7) as [l|e2] end;
+    cbn [rbind]; try discriminate; intros H; injection H as <-; cbn [wwl wfocal wps wptype wshape];
+    repeat split; auto.
+Qed.
+
+Theorem propagate_focal_copied shift_of (w w' : wavefront S) dur duc shape pshape os mask z :
+  propagate_dft sq shift_of w dur duc shape pshape os mask = Ok w' ->
+  wfocal w = Some z -> z <> 0%Qc -> wfocal w' = Some z.
+Proof.
+  intros H Hz Hne. destruct (propagate_metadata _ _ _ _ _ _ _ _ _ H) as (_ & Hf & _).
+  rewrite Hf, Hz. unfold init_focal. destruct (Qc_eq_bool z 0) eqn:E; [|reflexivity].
+  apply Qc_eq_bool_correct in E. contradiction.
+Qed.
+
+Theorem propagate_none_refused shift_of (w : wavefront S) dur duc shape pshape os mask :
+  wptype w = PtNone -> propagate_dft sq shift_of w dur duc shape pshape os mask = Err TypeError.
+Proof. intros H. unfold propagate_dft. rewrite H. reflexivity. Qed.
+(* the same statement with every definition of Proofs/ unfolded (the form quoted in Properties/C02.v) *)
+Lemma lsum_map_fold {A} (t : A -> S) l : lsum S (map t l) = fold_right (fun f acc => (t f + acc)%K) k0 l.
+Proof. induction l as [|x l IH]; [reflexivity|]. cbn [map fold_right]. rewrite lsum_cons, IH. reflexivity. Qed.
+
+Lemma dft_alpha1_explicit dx du wl z os :
+  dft_alpha1 dx du wl z os = ((dx * du) / (wl * match z with Some zz => zz | None => 0 end * zq os))%Qc.
+Proof. unfold dft_alpha1. destruct z; [reflexivity|].
+  unfold Qcdiv. replace (wl * 0 * zq os)%Qc with 0%Qc by ring.
+  replace (/ 0)%Qc with 0%Qc by (apply Qc_is_canon; reflexivity). ring. Qed.
+
+Theorem propagate_dft_samples_explicit shift_of (w : wavefront S) dur duc shape pshape os mask dxr dxc Sr Sc Pr Pc b :
+  wptype w <> PtNone -> wps w = Some (dxr, dxc) ->
+  (forall f, In f (wdata w) -> shift_of f = (0%Qc, 0%Qc) /\ exists a, fd f = D2 a) ->
+  match shape with None => wshape w | Some s => s end = (Sr, Sc) ->
+  match pshape with None => (Sr, Sc) | Some p => p end = (Pr, Pc) ->
+  0 < Sr -> 0 < Sc -> 0 < Pr -> 0 < Pc -> 1 <= os ->
+  (forall m, mask = Some m -> mnr m = Sr * os /\ mnc m = Sc * os) ->
+  mask_bbox mask (Sr * os) (Sc * os) = Ok b ->
+  let ar := ((dxr * dur) / (wwl w * match wfocal w with Some z => z | None => 0 end * zq os))%Qc in
+  let ac := ((dxc * duc) / (wwl w * match wfocal w with Some z => z | None => 0 end * zq os))%Qc in
+  exists w' o, propagate_dft sq shift_of w dur duc shape pshape os mask = Ok w' /\
+    wshape w' = (Sr * os, Sc * os) /\
+    render (wdata w') (Sr * os) (Sc * os) = Ok o /\ nr o = Sr * os /\ nc o = Sc * os /\
+    (forall i j, 0 <= i < Sr * os -> 0 <= j < Sc * os ->
+      let u := i - (Sr * os) / 2 in let v := j - (Sc * os) / 2 in
+      get o i j =
+        if inE b i j && inE (array_extent (Pr * os) (Pc * os) 0 0) u v
+        then (fold_right (fun f acc =>
+                (match fd f with
+                 | D2 a => sumZ (nr a) (fun x => sumZ (nc a) (fun y =>
+                     (get a x y * ke (ar * zq (x - nr a / 2 + offr f) * zq u + ac * zq (y - nc a / 2 + offc f) * zq v)%Qc)%K))
+                 | D0 _ => k0
+                 end + acc)%K) k0 (wdata w)
+              * sq (qabs (ar * ac)%Qc))%K
+        else k0).
+Proof.
+  intros H1 H2 H3 H4 H5 H6 H7 H8 H9 H10 H11 H12 ar ac.
+  destruct (propagate_dft_samples shift_of w dur duc shape pshape os mask dxr dxc Sr Sc Pr Pc b
+              H1 H2 H3 H4 H5 H6 H7 H8 H9 H10 H11 H12) as (w' & o & A & B & C & D & E & F).
+  exists w', o. repeat (split; [assumption|]). split.
+  { unfold wfield in C. rewrite B in C. exact C. }
+  repeat (split; [assumption|]).
+  intros i j Hi Hj u v. rewrite (F i j Hi Hj). rewrite !dft_alpha1_explicit. fold ar ac u v.
+  rewrite lsum_map_fold. reflexivity.
+Qed.
+(* ------------------------------------------------------------------ the input plane *)
+(* the Fraunhofer sums of the fields add up to the Fraunhofer sum of the plane they tile: input
+   sample x of a field sits at plane coordinate x - floor(m/2) + offset *)
+Definition in_box (B : Z) (e : extent) : Prop :=
+  let '(rmin, rmax, cmin, cmax) := e in - B <= rmin /\ rmax <= B /\ - B <= cmin /\ cmax <= B.
+
+Lemma field_sum_is_plane_transform (f : field S) a B ar ac U V :
+  fd f = D2 a -> 0 < nr a -> 0 < nc a -> in_box B (fextent f) ->
+  fourier_sum a ar ac (offr f) (offc f) U V = plane_fraunhofer B (embed f) ar ac U V.
+Proof.
+  destruct f as [d orr occ tl]. cbn [fd offr offc]. intros -> Hn Hm.
+  unfold in_box, fextent, embed, fextent. cbn [fd dshape offr offc dget]. unfold array_extent.
+  set (rmin := - (nr a / 2) + orr). set (cmin := - (nc a / 2) + occ). intros (B1 & B2 & B3 & B4).
+  unfold plane_fraunhofer, fourier_sum. symmetry.
+  rewrite (sumZ_support S Sring (2 * B + 1) (rmin + B) (nr a)); try lia.
+  - apply sumZ_ext; intros x Hx.
+    rewrite (sumZ_support S Sring (2 * B + 1) (cmin + B) (nc a)); try lia.
+    + apply sumZ_ext; intros y Hy. unfold inb.
+      replace ((rmin <=? rmin + B + x - B) && (rmin + B + x - B <=? rmin + nr a - 1)
+               && ((cmin <=? cmin + B + y - B) && (cmin + B + y - B <=? cmin + nc a - 1))) with true by lia.
+      replace (rmin + B + x - B - rmin) with x by lia. replace (cmin + B + y - B - cmin) with y by lia.
+      replace (rmin + B + x - B) with (x - nr a / 2 + orr) by (subst rmin; lia).
+      replace (cmin + B + y - B) with (y - nc a / 2 + occ) by (subst cmin; lia). reflexivity.
+    + intros y Hy Hn'. unfold inb.
+      replace ((rmin <=? rmin + B + x - B) && (rmin + B + x - B <=? rmin + nr a - 1)
+               && ((cmin <=? y - B) && (y - B <=? cmin + nc a - 1))) with false by lia. ring.
+  - intros x Hx Hn'. apply (sumZ_zero_ext S Sring). intros y Hy. unfold inb.
+    replace ((rmin <=? x - B) && (x - B <=? rmin + nr a - 1)
+             && ((cmin <=? y - B) && (y - B <=? cmin + nc a - 1))) with false by lia. ring.
+Qed.
+
+Lemma plane_fraunhofer_add B (g h : Z -> Z -> S) ar ac U V :
+  plane_fraunhofer B (fun x y => (g x y + h x y)%K) ar ac U V
+  = (plane_fraunhofer B g ar ac U V + plane_fraunhofer B h ar ac U V)%K.
+Proof. unfold plane_fraunhofer. rewrite <- sumZ_add by exact Sring. apply sumZ_ext; intros x Hx.
+  rewrite <- sumZ_add by exact Sring. apply sumZ_ext; intros y Hy. ring. Qed.
+Lemma plane_fraunhofer_zero B ar ac U V : plane_fraunhofer B (fun _ _ => k0) ar ac U V = @k0 S.
+Proof. unfold plane_fraunhofer. apply (sumZ_zero_ext S Sring); intros x Hx.
+  apply (sumZ_zero_ext S Sring); intros y Hy. ring. Qed.
+Lemma plane_fraunhofer_ext B (g h : Z -> Z -> S) ar ac U V : (forall x y, g x y = h x y) ->
+  plane_fraunhofer B g ar ac U V = plane_fraunhofer B h ar ac U V.
+Proof. intros H. unfold plane_fraunhofer. apply sumZ_ext; intros x Hx. apply sumZ_ext; intros y Hy. now rewrite H. Qed.
+
+Theorem fields_sum_is_plane_transform (fs : list (field S)) B ar ac U V :
+  (forall f, In f fs -> sized f /\ in_box B (fextent f)) ->
+  lsum S (map (fun f => match fd f with D2 a => fourier_sum a ar ac (offr f) (offc f) U V | D0 _ => k0 end) fs)
+  = plane_fraunhofer B (embed_sum fs) ar ac U V.
+Proof.
+  intros H.
+  rewrite (plane_fraunhofer_ext B (embed_sum fs) (fun x y => lsum S (map (fun f => embed f x y) fs)))
+    by (intros; apply embed_sum_lsum; exact Sring).
+  induction fs as [|f r IH]; cbn [map].
+  - symmetry. apply plane_fraunhofer_zero.
+  - rewrite lsum_cons, IH by (intros; apply H; now right).
+    destruct (H f (or_introl eq_refl)) as [(a & Ha & Hn & Hm) Hb]. rewrite Ha.
+    rewrite (field_sum_is_plane_transform f a B ar ac U V Ha Hn Hm Hb).
+    rewrite <- plane_fraunhofer_add. apply plane_fraunhofer_ext. intros x y. reflexivity.
+Qed.
+Theorem fields_sum_is_plane_transform_explicit (fs : list (field S)) B ar ac U V :
+  (forall f, In f fs -> (exists d, fd f = D2 d /\ 0 < nr d /\ 0 < nc d) /\
+                        (let '(rmin, rmax, cmin, cmax) := fextent f in - B <= rmin /\ rmax <= B /\ - B <= cmin /\ cmax <= B)) ->
+  fold_right (fun f acc =>
+     (match fd f with
+      | D2 a => sumZ (nr a) (fun x => sumZ (nc a) (fun y =>
+          (get a x y * ke (ar * zq (x - nr a / 2 + offr f) * U + ac * zq (y - nc a / 2 + offc f) * V)%Qc)%K))
+      | D0 _ => k0
+      end + acc)%K) k0 fs
+  = sumZ (2 * B + 1) (fun x => sumZ (2 * B + 1) (fun y =>
+      (embed_sum fs (x - B)%Z (y - B)%Z * ke (ar * zq (x - B) * U + ac * zq (y - B) * V)%Qc)%K)).
+Proof.
+  intros H. rewrite <- lsum_map_fold. exact (fields_sum_is_plane_transform fs B ar ac U V H).
+Qed.
+(* ------------------------------------------------------------------ Wavefront.intensity *)
+Lemma acc_from (g : S -> S) (w : S) (fs : list (field S)) : g k0 = k0 ->
+  forall (o0 : arr S), 0 < nr o0 -> 0 < nc o0 -> (forall f, In f fs -> sized f) ->
+  exists o, fold_left (fun acc f => rbind acc (fun o => rbind (insert g f o w) (fun o' => Ok (force o'))))
+                      fs (Ok o0) = Ok o /\ nr o = nr o0 /\ nc o = nc o0 /\
+    (forall i j, 0 <= i < nr o0 -> 0 <= j < nc o0 ->
+      get o i j = (get o0 i j + lsum S (map (fun f => (g (embed f (i - nr o0 / 2) (j - nc o0 / 2)) * w)%K) fs))%K).
+Proof.
+  intros Hg. induction fs as [|f r IH]; intros o0 Hn Hm Hs.
+  - exists o0. cbn. repeat split; try reflexivity. intros. ring.
+  - destruct (Hs f (or_introl eq_refl)) as (d & Hd & Hd1 & Hd2).
+    destruct (insert_spec S Sring g f d o0 w Hd Hd1 Hd2 Hn Hm Hg) as (o1 & Ho1 & N1 & M1 & G1).
+    cbn [fold_left rbind]. rewrite Ho1. cbn [rbind].
+    destruct (IH (force o1)) as (o & Ho & N & M & G).
+    + rewrite force_nr. lia. + rewrite force_nc. lia. + intros x Hx. apply Hs. now right.
+    + exists o. split; [exact Ho|]. rewrite force_nr, force_nc in *. split; [lia|]. split; [lia|].
+      intros i j Hi Hj. rewrite N1, M1 in G. rewrite G by assumption.
+      rewrite force_get by lia. rewrite G1 by assumption. cbn [map]. rewrite lsum_cons. ring.
+Qed.
+
+Lemma all_fields_init (fs : list (field S)) : all_fields S (map (fun f => ([f], fextent f)) fs) = fs.
+Proof. induction fs as [|f r IH]; [reflexivity|]. cbn [map]. unfold all_fields in *. cbn [flat_map fst app]. now rewrite IH. Qed.
+
+Lemma reduce_sized (fs : list (field S)) : (forall f, In f fs -> sized f /\ fbounded S f) ->
+  forall g, In g (reduce fs) -> sized g.
+Proof.
+  intros H g Hg. rewrite reduce_is_map in Hg. apply in_map_iff in Hg. destruct Hg as (grp & <- & Hin).
+  assert (Hok : forall f, In f fs -> fok S f).
+  { intros f Hf. destruct (H f Hf) as [(d & Hd & Hd1 & Hd2) Hb]. split; [unfold fvalid; rewrite Hd; lia|exact Hb]. }
+  destruct (reduce_groups_inv S fs Hok grp Hin) as (G1 & G2 & G3).
+  assert (Hsub : forall f, In f (fst grp) -> In f fs).
+  { intros f Hf. assert (Hall : In f (all_fields S (reduce_groups fs))).
+    { unfold all_fields. apply in_flat_map. exists grp. split; assumption. }
+    unfold reduce_groups in Hall. eapply Permutation.Permutation_in in Hall; [|apply disjoint_perm].
+    rewrite all_fields_init in Hall. exact Hall. }
+  unfold gout. destruct (fst grp) as [|f [|f' l]] eqn:E; [congruence|apply H; apply Hsub; now left|].
+  assert (Hv : fvalid S (merge (f :: f' :: l))).
+  { apply merge_valid; [discriminate|]. intros x Hx. apply G3. exact Hx. }
+  destruct (H f (Hsub f (or_introl eq_refl))) as [(d & Hd & _) _].
+  unfold merge in *. destruct (boundary (f :: f' :: l)) as [[[b1 b2] b3] b4].
+  assert (Ms : merge_scalars (f :: f' :: l) = false) by (cbn [merge_scalars forallb]; rewrite Hd; reflexivity).
+  rewrite Ms in *. unfold fvalid in Hv. cbn [fd] in Hv. eexists; split; [reflexivity|]. exact Hv.
+Qed.
+
+Lemma norm2_0 : norm2 (@k0 S) = k0.
+Proof. unfold norm2. ring. Qed.
+
+Lemma forall_or_split {A} (P : Prop) (Q : A -> Prop) l : Forall (fun b => P \/ Q b) l -> P \/ Forall Q l.
+Proof. induction 1 as [|b r [Hp|Hq] _ [IH|IH]]; auto. Qed.
+
+Lemma lsum_zero (vs : list S) : Forall (fun b => b = k0) vs -> lsum S vs = k0 /\ lsum S (map norm2 vs) = k0.
+Proof. induction 1 as [|b r Hb _ [IH1 IH2]]; [split; reflexivity|]. cbn [map]. rewrite !lsum_cons, IH1, IH2, Hb, norm2_0.
+  split; ring. Qed.
+
+(* where at most one term is non-zero, the sum of the squared moduli is the squared modulus of the sum *)
+Lemma lsum_norm2_disjoint (vs : list S) : ForallOrdPairs (fun a b => a = k0 \/ b = k0) vs ->
+  lsum S (map norm2 vs) = norm2 (lsum S vs).
+Proof.
+  induction 1 as [|x r Hx _ IH]; [symmetry; apply norm2_0|].
+  cbn [map]. rewrite !lsum_cons. destruct (forall_or_split _ _ _ Hx) as [E|E].
+  - rewrite E, norm2_0, IH. replace (k0 + lsum S r)%K with (lsum S r) by ring. ring.
+  - destruct (lsum_zero r E) as [E1 E2]. rewrite E1, E2. replace (x + k0)%K with x by ring. ring.
+Qed.
+
+Lemma fop_map {A B} (R : A -> A -> Prop) (R' : B -> B -> Prop) (h : A -> B) l :
+  (forall a b, R a b -> R' (h a) (h b)) -> ForallOrdPairs R l -> ForallOrdPairs R' (map h l).
+Proof. intros Hh. induction 1 as [|x r Hx _ IH]; cbn [map]; constructor; [|exact IH].
+  apply Forall_forall. intros y Hy. apply in_map_iff in Hy. destruct Hy as (b & <- & Hb).
+  apply Hh. rewrite Forall_forall in Hx. now apply Hx. Qed.
+
+Lemma esub_refl e : esub e e.
+Proof. destruct e as [[[a b] c] d]. unfold esub. lia. Qed.
+
+Lemma disjoint_one_zero (a b : field S) r c : intersect (fextent a) (fextent b) = false ->
+  embed a r c = k0 \/ embed b r c = k0.
+Proof.
+  intros H. destruct (inE (fextent a) r c) eqn:Ea.
+  - destruct (inE (fextent b) r c) eqn:Eb.
+    + rewrite (common_point_intersect _ _ _ _ Ea Eb) in H. discriminate.
+    + right. apply (embed_outside S b (fextent b)); [apply esub_refl|exact Eb].
+  - left. apply (embed_outside S a (fextent a)); [apply esub_refl|exact Ea].
+Qed.
+
+(* Wavefront.intensity is the squared modulus of Wavefront.field, sample by sample (overlapping
+   fields are merged = added coherently, disjoint ones contribute to different samples) *)
+Theorem intensity_is_norm2_field (fs : list (field S)) n m : 0 < n -> 0 < m ->
+  (forall f, In f fs -> sized f /\ fbounded S f) ->
+  exists o, intensity fs n m = Ok o /\ nr o = n /\ nc o = m /\
+    (forall i j, 0 <= i < n -> 0 <= j < m ->
+      get o i j = norm2 (lsum S (map (fun f => embed f (i - n / 2) (j - m / 2)) fs))).
+Proof.
+  intros Hn Hm H.
+  assert (Hok : forall f, In f fs -> fok S f).
+  { intros f Hf. destruct (H f Hf) as [(d & Hd & Hd1 & Hd2) Hb]. split; [unfold fvalid; rewrite Hd; lia|exact Hb]. }
+  destruct (acc_from norm2 k1 (reduce fs) norm2_0 (azeros n m) Hn Hm (reduce_sized fs H)) as (o & Ho & N & M & G).
+  exists o. split; [exact Ho|]. cbn [azeros nr nc] in *. repeat split; try assumption.
+  intros i j Hi Hj. rewrite G by assumption. unfold azeros at 1. cbn [get].
+  set (u := i - n / 2). set (v := j - m / 2).
+  rewrite (lsum_map_ext _ (fun f => norm2 (embed f u v))) by (intros; ring).
+  rewrite <- (map_map (fun f => embed f u v) norm2).
+  rewrite lsum_norm2_disjoint.
+  - rewrite <- !(embed_sum_lsum S Sring). rewrite (reduce_total S Sring fs u v Hok). ring.
+  - apply (fop_map (fun a b : field S => intersect (fextent a) (fextent b) = false)).
+    + intros a b Hab. now apply disjoint_one_zero.
+    + apply (reduce_disjoint S fs Hok).
 Qed.
 End PropagateP.
